@@ -677,26 +677,27 @@ namespace SamVerif.Props.C09r
 open SamVerif.RedirStop
 
 /-- any number of pending redirections, any room in the silent node's queue, either order of the two connections -/
-def start (aFirst : Bool) (room pending : Nat) : S := { aFirst := aFirst, room := room, pendingRedir := pending }
+def start (aFirst held : Bool) (room pending : Nat) : S := { aFirst := aFirst, room := room, pendingRedir := pending, held := held }
 
 /-- **Stop returns although a read loop is resending into the full queue of a silent node** (F-09j, since 9cd2b0b): whatever
 the order in which the connections are stopped, whatever is pending — once Serve has begun to stop the connections, every
 schedule is finite (at most `mu` steps) and a schedule that cannot be continued has ended with Stop returned, the read loop
 gone and the silent node's connection closed. -/
-theorem stop_returns_with_a_reader_in_a_full_queue (aFirst : Bool) (room pending : Nat) (ls : List Label) (s : S)
-    (hr : run (start aFirst room pending) ls = some s) (hp : s.pc ≠ .running) :
+theorem stop_returns_with_a_reader_in_a_full_queue (aFirst held : Bool) (room pending : Nat) (ls : List Label) (s : S)
+    (hr : run (start aFirst held room pending) ls = some s) (hp : s.pc ≠ .running) :
     (∀ ls' s', run s ls' = some s' → ls'.length ≤ mu s) ∧
     (∀ ls' s', run s ls' = some s' → (∀ l, step s' l = none) → s'.pc = .returned ∧ s'.rd = .exited ∧ s'.bLoops = false) := by
-  have h0 : Inv (start aFirst room pending) := by constructor <;> simp [start]
+  have h0 : Inv (start aFirst held room pending) := by constructor <;> simp [start]
   obtain ⟨hi, ha, _, _⟩ := run_facts _ s ls h0 hr
   refine ⟨fun ls' s' h' => by have := (run_facts s s' ls' hi h').2.2.2; omega, ?_⟩
   intro ls' s' h' hstuck
   obtain ⟨hi', ha', hp', _⟩ := run_facts s s' ls' hi h'
-  have hab : s'.abort = true := by rw [ha', ha]; rfl
+  have hab : s'.abort = true := by rw [ha'.1, ha.1]; rfl
+  have hta : s'.turnAbort = true := by rw [ha'.2, ha.2]; rfl
   have hret : s'.pc = .returned := by
     by_cases hc : s'.pc = .returned
     · exact hc
-    · obtain ⟨l, hl⟩ := progress s' hi' hab (hp' hp) hc
+    · obtain ⟨l, hl⟩ := progress s' hi' hab hta (hp' hp) hc
       rw [hstuck l] at hl; cases hl
   refine ⟨hret, ?_, ?_⟩
   · cases hrd : s'.rd with
@@ -704,6 +705,9 @@ theorem stop_returns_with_a_reader_in_a_full_queue (aFirst : Bool) (room pending
     | reading =>
       have := hstuck .readerExits
       simp [step, hrd, (hi'.2 (Or.inr hret)).1] at this
+    | queuing =>
+      have := hstuck .queueGivesUp
+      simp [step, hrd, hab, hta, (hi'.2 (Or.inr hret)).1] at this
     | sending =>
       have := hstuck .aborted
       simp [step, hrd, hab, (hi'.2 (Or.inr hret)).1] at this
@@ -722,7 +726,20 @@ theorem old_send_ignores_its_own_quit :
   intro l; cases l <;> rfl
 
 /-- the same schedule now: the read loop gives up, ends, and Stop goes on to the silent node's connection and returns -/
-example : ∃ s, run (start true 0 1) [.reply, .stop, .close, .aborted, .readerExits, .waited, .close, .bExits, .waited] = some s ∧
+example : ∃ s, run (start true false 0 1) [.reply, .stop, .close, .aborted, .readerExits, .waited, .close, .bExits, .waited] = some s ∧
+    s.pc = .returned := ⟨_, rfl, rfl⟩
+
+/-- **With the turn guarded by a mutex** (cf7dbc3 … 058c6b1, my own repair of F-04d): a session's Send for the silent node has the turn and
+waits for room; the read loop that follows an ASK waits for the turn inside `Lock()`, which no quit can interrupt — Stop closes its
+connection's quit and waits for it for ever (F-09l). -/
+theorem old_turn_wait_ignores_every_quit :
+    ∃ s, run { turnAbort := false, aFirst := true, room := 0, pendingRedir := 1, held := true } [.reply, .stop, .close] = some s ∧
+      s.pc = .waitFirst ∧ s.rd = .queuing ∧ ∀ l, step s l = none := by
+  refine ⟨_, rfl, rfl, rfl, ?_⟩
+  intro l; cases l <;> rfl
+
+/-- the same schedule now: the wait for the turn gives up, Stop returns -/
+example : ∃ s, run (start true true 0 1) [.reply, .stop, .close, .queueGivesUp, .readerExits, .waited, .close, .bExits, .holderLeaves, .waited] = some s ∧
     s.pc = .returned := ⟨_, rfl, rfl⟩
 
 end SamVerif.Props.C09r
@@ -790,3 +807,4 @@ end SamVerif.Props.C09t
 #print axioms SamVerif.Props.C09t.at_most_one_running
 #print axioms SamVerif.Props.C09t.old_removal_by_address_orphans_a_connection
 #print axioms SamVerif.Props.C09.table_removal_matches_model
+#print axioms SamVerif.Props.C09r.old_turn_wait_ignores_every_quit
